@@ -30,9 +30,19 @@ func (s *DataSemaphore) Acquire(weight dag.Metric, timeout time.Duration) bool {
 	deadline := time.Now().Add(timeout)
 	s.mu.Lock()
 	defer s.mu.Unlock()
+	var wakeup *time.Timer
 	for !s.tryAcquire(weight) {
-		if weight.Size > s.maxProcessing.Size || weight.Num > s.maxProcessing.Num || time.Now().After(deadline) {
+		if weight.Size > s.maxProcessing.Size || weight.Num > s.maxProcessing.Num || !time.Now().Before(deadline) {
 			return false
+		}
+		if wakeup == nil {
+			// wake up at the deadline, otherwise the timeout is noticed only when somebody calls Release
+			wakeup = time.AfterFunc(time.Until(deadline), func() {
+				s.mu.Lock()
+				defer s.mu.Unlock()
+				s.cond.Broadcast()
+			})
+			defer wakeup.Stop()
 		}
 		s.cond.Wait()
 	}
